@@ -7,6 +7,7 @@ import (
 	"go/parser"
 	"go/printer"
 	"go/token"
+	"sort"
 	"strings"
 )
 
@@ -16,6 +17,60 @@ import (
 // A line comment "//c14:args a,b;c,d" directly above a function restricts its
 // argument tuples; "//c14:stateful" makes every call run in a fresh process.
 func progFromSource(feature, src string) (*Prog, error) {
+	src, extra := splitExtra(src)
+	p, err := progFromMain(feature, src)
+	if err == nil {
+		p.Extra = extra
+	}
+	return p, err
+}
+
+// splitExtra separates the sections "//c14:file <path>" ... (further files of
+// the program, see Prog.Extra) from the text of prog.go ("//c14:main" switches
+// back to it).
+func splitExtra(src string) (string, map[string]string) {
+	if !strings.Contains(src, "//c14:file ") {
+		return src, nil
+	}
+	extra := map[string]string{}
+	var main strings.Builder
+	cur := ""
+	for _, l := range strings.SplitAfter(src, "\n") {
+		t := strings.TrimSpace(l)
+		switch {
+		case strings.HasPrefix(t, "//c14:file "):
+			cur = strings.TrimSpace(strings.TrimPrefix(t, "//c14:file "))
+		case t == "//c14:main":
+			cur = ""
+		case cur == "":
+			main.WriteString(l)
+		default:
+			extra[cur] += l
+		}
+	}
+	return main.String(), extra
+}
+
+// joinExtra is the inverse of splitExtra (sections in sorted order).
+func joinExtra(main string, extra map[string]string) string {
+	if len(extra) == 0 {
+		return main
+	}
+	var ks []string
+	for k := range extra {
+		ks = append(ks, k)
+	}
+	sort.Strings(ks)
+	var b strings.Builder
+	for _, k := range ks {
+		b.WriteString("//c14:file " + k + "\n" + strings.TrimRight(extra[k], "\n") + "\n")
+	}
+	b.WriteString("//c14:main\n")
+	b.WriteString(main)
+	return b.String()
+}
+
+func progFromMain(feature, src string) (*Prog, error) {
 	fset := token.NewFileSet()
 	file, err := parser.ParseFile(fset, "prog.go", "package main\n\n"+src, parser.ParseComments)
 	if err != nil {
@@ -39,6 +94,18 @@ func progFromSource(feature, src string) (*Prog, error) {
 		}
 		f := Fn{Name: fd.Name.Name, Feature: feature}
 		good := true
+		if fd.Doc != nil {
+			skip := false
+			for _, c := range fd.Doc.List {
+				// exported, but not driven (a signature without argument domain); the manifest oracle still sees it
+				if strings.TrimSpace(strings.TrimPrefix(c.Text, "//")) == "c14:skip" {
+					skip = true
+				}
+			}
+			if skip {
+				continue
+			}
+		}
 		for _, fl := range fd.Type.Params.List {
 			t, ok := typeOf(fl.Type)
 			if !ok || (t != TInt && t != TBool && t != TStr) {
@@ -94,6 +161,11 @@ func progFromSource(feature, src string) (*Prog, error) {
 // pruneDecls drops the top-level declarations of src that no exported function
 // reaches (shape templates share a prelude most variants use only partly).
 func pruneDecls(src string) string {
+	main, extra := splitExtra(src)
+	return joinExtra(pruneMain(main), extra)
+}
+
+func pruneMain(src string) string {
 	fset := token.NewFileSet()
 	file, err := parser.ParseFile(fset, "prog.go", "package main\n\n"+src, parser.ParseComments)
 	if err != nil {
@@ -122,6 +194,9 @@ func pruneDecls(src string) string {
 				}
 			}
 		case *ast.GenDecl:
+			if x.Tok == token.IMPORT {
+				dd.keep = true // (an import left without use makes the pruned text invalid: the caller falls back to the full text)
+			}
 			for _, sp := range x.Specs {
 				switch s := sp.(type) {
 				case *ast.ValueSpec:
@@ -168,6 +243,34 @@ func pruneDecls(src string) string {
 				changed = true
 			}
 		}
+	}
+	// an import none of the kept declarations uses is dropped
+	for _, d := range decls {
+		gd, ok := d.node.(*ast.GenDecl)
+		if !ok || gd.Tok != token.IMPORT || len(gd.Specs) != 1 {
+			continue
+		}
+		is := gd.Specs[0].(*ast.ImportSpec)
+		name := strings.Trim(is.Path.Value, `"`)
+		name = name[strings.LastIndex(name, "/")+1:]
+		if is.Name != nil {
+			name = is.Name.Name
+		}
+		used := false
+		for _, o := range decls {
+			if o == d || !o.keep {
+				continue
+			}
+			ast.Inspect(o.node, func(n ast.Node) bool {
+				if se, ok := n.(*ast.SelectorExpr); ok {
+					if id, ok := se.X.(*ast.Ident); ok && id.Name == name {
+						used = true
+					}
+				}
+				return !used
+			})
+		}
+		d.keep = used
 	}
 	var b strings.Builder
 	for _, d := range decls {
